@@ -29,6 +29,7 @@ Proof. reflexivity. Qed.
 Lemma brk_ok_unfold ml ld p :
   brk_ok ml ld p = match p with
                    | PBreak => match ld with O => false | S O => negb ml | _ => true end
+                   | PContinue => match ld with O => false | _ => true end
                    | PIf _ b el e => brk_l ml ld b && brk_lb ml ld el && brk_l ml ld e
                    | PWhile _ b | PFor _ _ b => brk_l ml (S ld) b
                    | _ => true
@@ -69,21 +70,21 @@ Proof.
 Qed.
 
 Lemma tr_block_accepts ml : forall f gf glob top lm ld s D L ps D',
-  glob = top && negb lm -> implb lm (no_top_tuple ps) = true ->
+  implb ml (Nat.leb 1 ld) = true ->
+  glob = top && negb lm -> implb lm (no_top_tuple D ps) = true ->
   g_block gf top D L ps = Some D' -> Dec D L s -> brk_l ml ld ps = true -> (S (sz ps) <= f)%nat ->
   exists ns s', tr_block ml f glob ld s ps = Some (ns, s').
 Proof.
-  induction f as [|f IH]; intros gf glob top lm ld s D L ps D' HGL Htup HG HD HB Hf; [lia|].
+  induction f as [|f IH]; intros gf glob top lm ld s D L ps D' Hml HGL Htup HG HD HB Hf; [lia|].
   destruct ps as [|p rest]; [eexists; eexists; reflexivity|].
   apply g_block_cons_inv in HG as (gf' & D1 & -> & HS & HG).
   cbn [brk_l] in HB. apply andb_true_iff in HB as [HB1 HBr]. cbn [sz] in Hf.
   pose proof (ssize_unfold p) as HSZ.
   destruct f as [|f']; [lia|]. remember (S f') as F eqn:HF.
   assert (Hnil : forall s0, tr_block ml F glob ld s0 [] = Some ([], s0)) by (intro s0; subst F; reflexivity).
-  assert (Htr : implb lm (no_top_tuple rest) = true).
-  { destruct lm; [|reflexivity]. cbn [implb no_top_tuple forallb] in Htup |- *.
-    apply andb_true_iff in Htup as [_ Htup]. exact Htup. }
-  assert (Htp : implb lm (no_top_tuple [p]) = true).
+  assert (Htr : implb lm (no_top_tuple D1 rest) = true).
+  { destruct lm; [|reflexivity]. cbn [implb] in Htup |- *. eapply no_top_tuple_tail; [eapply g_step_ext; exact HS|exact Htup]. }
+  assert (Htp : implb lm (no_top_tuple D [p]) = true).
   { destruct lm; [|reflexivity]. cbn [implb no_top_tuple forallb] in Htup |- *.
     apply andb_true_iff in Htup as [Htup _]. rewrite Htup. reflexivity. }
   (* the head alone *)
@@ -93,8 +94,12 @@ Proof.
     - destruct (tr_assign glob x e s) as [a b]. eexists; eexists; rewrite ?Hnil; reflexivity.
     - eexists; eexists; rewrite ?Hnil; reflexivity.
     - (* tuple *)
-      cbn [g_step] in HS. destruct (top && tuple_decl_ok D L xs es) eqn:Hk; [|discriminate].
-      apply andb_true_iff in Hk as [_ Hk]. destruct (tuple_decl_ok_inv _ _ _ _ Hk) as (Hlen & _).
+      cbn [g_step] in HS.
+      assert (Hlen : length xs = length es).
+      { destruct (tuple_asg_ok D L xs es) eqn:Hq.
+        - apply tuple_asg_ok_inv in Hq as (_ & _ & Hq). apply tuple_asg_tys_inv in Hq as [Hq _]. exact Hq.
+        - destruct (top && tuple_decl_ok D L xs es) eqn:Hk; [|discriminate].
+          apply andb_true_iff in Hk as [_ Hk]. destruct (tuple_decl_ok_inv _ _ _ _ Hk) as (Hlen & _). exact Hlen. }
       unfold tr_tuple. rewrite Hlen, Nat.leb_refl. cbn [negb].
       destruct (_ && glob).
       + destruct (tuple_global _ _ _) as [a b]. eexists; eexists; rewrite ?Hnil; reflexivity.
@@ -107,7 +112,7 @@ Proof.
       apply andb_true_iff in HB1 as [HBb HBe]. apply andb_true_iff in HBb as [HBb HBl].
       assert (NEST : forall b gl, g_block gf' false D L b = Some D -> brk_l ml ld b = true -> (S (sz b) <= F)%nat ->
                      exists nsb cs, tr_block ml F false ld (child_of s gl) b = Some (nsb, cs)).
-      { intros b gl Hg Hb Hs. eapply (IH gf' false false false ld _ D L b D eq_refl eq_refl Hg (Dec_child D L s gl HD) Hb Hs). }
+      { intros b gl Hg Hb Hs. eapply (IH gf' false false false ld _ D L b D Hml eq_refl eq_refl Hg (Dec_child D L s gl HD) Hb Hs). }
       destruct (NEST body (globals s) H1 HBb ltac:(lia)) as (ns1 & cs1 & E1). rewrite E1.
       match goal with |- context [?B (globals cs1) elifs] => set (BR := B) end.
       assert (HBR : forall l gl, (forall cb, In cb l -> g_block gf' false D L (snd cb) = Some D) ->
@@ -133,7 +138,7 @@ Proof.
       cbn [g_step] in HS.
       match type of HS with (if ?cnd then _ else _) = _ => destruct cnd eqn:Hc; [|discriminate] end.
       apply andb_true_iff in Hc as [_ H1]. apply nested_true in H1.
-      destruct (IH gf' false false false (S ld) (child_of s (globals s)) D L body D eq_refl eq_refl H1
+      destruct (IH gf' false false false (S ld) (child_of s (globals s)) D L body D (ml_S _ _ Hml) eq_refl eq_refl H1
                   (Dec_child D L s (globals s) HD) HB1 ltac:(lia)) as (nsb & cs & Eb).
       rewrite Eb.
       match goal with |- context [promo_decls ?G ?N ?S] => destruct (promo_decls G N S) as [decls s3] end.
@@ -143,6 +148,7 @@ Proof.
       match type of HS with (if ?cnd then _ else _) = _ => destruct cnd eqn:Hc; [|discriminate] end.
       apply andb_true_iff in Hc as [Hc H8]. apply andb_true_iff in Hc as [Hc H7].
       apply andb_true_iff in Hc as [Hc H6]. apply andb_true_iff in Hc as [Hc H5].
+      apply andb_true_iff in Hc as [Hc H4t].
       apply andb_true_iff in Hc as [Hc H4]. apply andb_true_iff in Hc as [Hc H3].
       apply nested_true in H8. apply negb_true_iff in H3, H4.
       assert (Hnd : is_declared x s = false).
@@ -152,13 +158,17 @@ Proof.
       assert (HDb : Dec D (x :: L) base).
       { intro y. unfold base. cbn [declared]. rewrite tmem_app, (HD y). cbn [tmem].
         destruct (tmem y (map fst D)), (tmem y L), (text_eqb y x); reflexivity. }
-      destruct (IH gf' false false false (S ld) base D (x :: L) body D eq_refl eq_refl H8 HDb HB1 ltac:(lia)) as (nsb & cs & Eb).
+      destruct (IH gf' false false false (S ld) base D (x :: L) body D (ml_S _ _ Hml) eq_refl eq_refl H8 HDb HB1 ltac:(lia)) as (nsb & cs & Eb).
       rewrite Eb.
       match goal with |- context [promo_decls ?G ?N ?S] => destruct (promo_decls G N S) as [decls s3] end.
       eexists; eexists; rewrite ?Hnil; reflexivity.
     - (* break *)
       destruct ld as [|[|ld']]; [discriminate| |].
       + destruct ml; [discriminate|]. eexists; eexists; rewrite ?Hnil; reflexivity.
+      + eexists; eexists; rewrite ?Hnil; reflexivity.
+    - (* continue *)
+      destruct ld as [|[|ld']]; [discriminate| |].
+      + destruct ml; eexists; eexists; rewrite ?Hnil; reflexivity.
       + eexists; eexists; rewrite ?Hnil; reflexivity.
     - eexists; eexists; rewrite ?Hnil; reflexivity.
     - eexists; eexists; rewrite ?Hnil; reflexivity.
@@ -167,8 +177,8 @@ Proof.
   assert (HD1 : Dec D1 L s1).
   { assert (G1 : g_block (S gf') top D L [p] = Some D1).
     { rewrite g_block_cons, HS. destruct gf'; [discriminate HG|]. reflexivity. }
-    destruct (tr_block_simple ml _ _ glob top lm _ _ _ _ _ _ _ _ HGL Htp G1 HD HEAD) as (_ & _ & X). exact X. }
-  destruct (IH gf' glob top lm ld s1 D1 L rest D' HGL Htr HG HD1 HBr ltac:(lia)) as (ms & s2 & Er).
+    destruct (tr_block_simple ml _ _ glob top lm _ _ _ _ _ _ _ _ Hml HGL Htp G1 HD HEAD) as (_ & _ & X & _). exact X. }
+  destruct (IH gf' glob top lm ld s1 D1 L rest D' Hml HGL Htr HG HD1 HBr ltac:(lia)) as (ms & s2 & Er).
   exists (ns0 ++ ms), s2. rewrite (tr_block_cons _ _ _ _ _ _ rest _ _ Hnil HEAD), Er. reflexivity.
 Qed.
 
@@ -178,14 +188,14 @@ Proof.
   apply andb_true_iff in HG as [_ HG]. apply andb_true_iff in HB as [HB1 HB2].
   destruct (g_block (bsize (p_pre p)) true [] [] (p_pre p)) as [D|] eqn:G1; [|discriminate].
   assert (HD0 : Dec [] [] st0) by (intro x; reflexivity).
-  destruct (tr_block_accepts false (bsize (p_pre p)) _ true true false 0 st0 [] [] (p_pre p) D eq_refl eq_refl G1 HD0 HB1)
+  destruct (tr_block_accepts false (bsize (p_pre p)) _ true true false 0 st0 [] [] (p_pre p) D eq_refl eq_refl eq_refl G1 HD0 HB1)
     as (setup & s1 & T1); [rewrite bsize_sz; lia|].
   rewrite T1.
   destruct (p_main p) as [body|]; [|eexists; reflexivity].
   apply andb_true_iff in HG as [HNT HG].
   destruct (g_block (bsize body) true D [] body) as [D2|] eqn:G2; [|discriminate].
-  destruct (tr_block_simple false _ _ true true false _ _ _ _ _ _ _ _ eq_refl eq_refl G1 HD0 T1) as (_ & _ & S3).
-  destruct (tr_block_accepts true (bsize body) _ false true true 1 s1 D [] body D2 eq_refl HNT G2 S3 HB2)
+  destruct (tr_block_simple false _ _ true true false _ _ _ _ _ _ _ _ eq_refl eq_refl eq_refl G1 HD0 T1) as (_ & _ & S3 & _).
+  destruct (tr_block_accepts true (bsize body) _ false true true 1 s1 D [] body D2 eq_refl eq_refl HNT G2 S3 HB2)
     as (loop & s2 & T2); [rewrite bsize_sz; lia|].
   rewrite T2. eexists; reflexivity.
 Qed.
